@@ -93,9 +93,10 @@ TTimeout == Step("scenario_timeout") /\ Same /\ Flag("net/scenario-timeout")
 THarness == Step("harness_error") /\ Same /\ Flag("harness/script-error")
 TEnd == Step("end") /\ Same /\ NoFlag
 TSkipped == Step("skipped_rest") /\ Same /\ NoFlag
+TInstallMonitor == Step("install_monitor") /\ Same /\ NoFlag      \* the monitor stream asked for (again) after a bind: what follows is demanded of it all the same
 TBurst == Step("reset_burst") /\ UNCHANGED <<scen, stype, bound, ever, open, how, hung, good, tag, ports>> /\ bad' = bad /\ NoFlag
 TNext == TReset \/ TBind \/ TBindDup \/ TUnbind \/ TUnbindUnknown \/ TBinds \/ TProbe \/ TIpc \/ TClient \/ TConnectOut \/ TExchange \/ TMonitor \/ TClose \/ TDrop \/ TEof
-         \/ TTasks \/ TFds \/ TSkipped \/ TBurst \/ TPanic \/ TTimeout \/ THarness \/ TEnd
+         \/ TTasks \/ TFds \/ TSkipped \/ TInstallMonitor \/ TBurst \/ TPanic \/ TTimeout \/ THarness \/ TEnd
 TSpec == TInit /\ [][TNext]_tvars
 Accepted == Consumed
 =============================================================================
